@@ -13,7 +13,8 @@ from checks import c08
 from harness import corpus, par, respjudge, schedreplay, tlc
 
 SDL = """
-type Query { hello: String, n: Int, echo(x: Int!): Int, nn: Int!, err: Int, items: [Item], fnan: Float, finf: Float }
+type Query { hello: String, n: Int, echo(x: Int!): Int, nn: Int!, err: Int, items: [Item], fnan: Float, finf: Float, paint(c: Color!): Int }
+enum Color { RED GREEN }
 type Item { nnitem: Int!, erritem: Int, echo(values: [Int]): Int, ok: Int }
 type Subscription { tick: Int }
 """
@@ -22,6 +23,8 @@ DOCS = {
     "namedA": "query A { hello }",
     "twoOps": "query A { hello }\nquery B { n }",
     "needsVar": "query A($v: Int!) { echo(x: $v) }",
+    "needsEnum": "query A($v: Color!) { paint(c: $v) }",
+    "invalidWide": "{ hello nope }",
     "syntaxErr": "{ hello",
     "syntaxEsc": '{ echo(x: "\\',
     "invalid": "{\n  hello\n  nope\n}",
@@ -33,8 +36,16 @@ DOCS = {
     "dirRoot": "query A($v: Boolean = true) { hello @include(if: $v) n }",
     "dirNested": "query A($v: Boolean = true) { hello items { ok @skip(if: $v) echo } }",
 }
-VARS = {"none": None, "ok": {"v": 3}, "wrongtype": {"v": "three"}, "null": {"v": None}}
-DOC_VARS = {"dirRoot": {"ok": {"v": False}}, "dirNested": {"ok": {"v": False}}}     # per-document payloads (a Boolean variable)
+VARS = {"none": None, "ok": {"v": 3}, "wrongtype": {"v": "three"}, "null": {"v": None}, "list": {"v": [3]}, "object": {"v": {"x": 3}}}
+# per-document payloads (a Boolean variable; an enum variable)
+DOC_VARS = {"dirRoot": {"ok": {"v": False}}, "dirNested": {"ok": {"v": False}},
+            "needsEnum": {"ok": {"v": "RED"}, "wrongtype": {"v": "PURPLE"}, "list": {"v": ["RED"]}, "object": {"v": {"c": "RED"}}}}
+
+
+def vars_for(q):
+    return DOC_VARS.get(q["doc"], {}).get(q["vars"], VARS[q["vars"]])
+
+
 EXT = {"code": 7, "detail": ["x", 1]}
 
 
@@ -46,6 +57,7 @@ def make_schema():
     q["hello"].resolver = lambda r, c, i: "world"
     q["n"].resolver = lambda r, c, i: 1
     q["echo"].resolver = lambda r, c, i, x: x
+    q["paint"].resolver = lambda root, ctx, info, c: 1
     q["nn"].resolver = lambda r, c, i: None
 
     def err(r, c, i):
@@ -109,7 +121,7 @@ def request_cases(chk):
             paths = [p.split("/") for p in q["errs"]]
             paths = [[int(x) if x.isdigit() else x for x in p] for p in paths]
             c = respjudge.project(text, q["outcome"],
-                                  lambda: run_config(cfgname, schema, text, DOC_VARS.get(q["doc"], {}).get(q["vars"], VARS[q["vars"]]), q["opname"] or None),
+                                  lambda: run_config(cfgname, schema, text, vars_for(q), q["opname"] or None),
                                   null_paths=paths, ext_expect=[EXT])
             cases.append(c)
             meta.append({"stage": "request", "doc": q["doc"], "opname": q["opname"], "vars": q["vars"], "cfg": cfgname, "text": text,
